@@ -1134,6 +1134,16 @@ def main():
         write_if_changed(os.path.join(outdir, 'CapSites.v'), '(* capsites.py failed: %s *)\nFrom BS Require Import Word.\nDefinition capsites_translation_failed : True := I.\n' % p.stdout.strip().replace('*)', '* )'))
     else:
         units.append(('CapSites', cap_rs, None, ()))
+    # the position arithmetic of allocator_impl.rs, cut out and rewritten by tools/allocsites.py
+    alloc_rs = os.path.join(os.path.dirname(cap_rs), 'allocsites.rs')
+    p = subprocess.run([sys.executable, os.path.join(os.path.dirname(os.path.abspath(__file__)), 'allocsites.py'), repo, alloc_rs],
+                       stdout=subprocess.PIPE, stderr=subprocess.STDOUT, text=True)
+    print(p.stdout.strip())
+    if p.returncode != 0:
+        rc = 2
+        write_if_changed(os.path.join(outdir, 'AllocSites.v'), '(* allocsites.py failed: %s *)\nFrom BS Require Import Word.\nDefinition allocsites_translation_failed : True := I.\n' % p.stdout.strip().replace('*)', '* )'))
+    else:
+        units.append(('AllocSites', alloc_rs, None, ()))
     for name, path, only, skip in units:
         try:
             u = Unit(name, path if os.path.isabs(path) else os.path.join(repo, path), only, skip)
